@@ -28,7 +28,8 @@ def inputs(rng, n_samples):
     for f in files[:n_samples]:
         try:
             t = open(f, 'rb').read().decode('utf-8')
-            out.append((os.path.relpath(f, REPO), t))
+            if '\x1b' not in t:      # an escape character of the source itself would be echoed in the snippet
+                out.append((os.path.relpath(f, REPO), t))
         except Exception:
             pass
     return out
